@@ -81,6 +81,20 @@ theorem lt_of_get {α : Type} {l : List α} {i : Nat} {a : α} (h : l[i]? = some
 theorem remPub_finish (th : Thread) : remPub th.finish.pc = 0 := by
   rcases finish_pc_cases th with h | ⟨v, h⟩ | h | h <;> rw [h] <;> rfl
 
+theorem popFail_other {s : State} {x : Nat} {b : Thread} (hx : s.threads[x]? = some b)
+    (h0 : remPub b.pc = 0) (acc : Acc) :
+    (s.popFail x b acc).1.chain.length = s.chain.length ∧
+      ∃ b', (s.popFail x b acc).1.threads[x]? = some b' ∧
+        (remPub b'.pc + 1 = remPub b.pc ∨ (remPub b.pc = 0 ∧ remPub b'.pc = 0)) := by
+  have hset : ∀ b' : Thread, (s.threads.set x b')[x]? = some b' :=
+    fun b' => List.getElem?_set_self (lt_of_get hx)
+  unfold State.popFail
+  split
+  · exact ⟨rfl, _, hset _, Or.inr ⟨h0, rfl⟩⟩
+  · split
+    · exact ⟨rfl, _, hset _, Or.inr ⟨h0, rfl⟩⟩
+    · exact ⟨rfl, _, hset _, Or.inr ⟨h0, remPub_finish b⟩⟩
+
 /-- A step of thread `x`: either it is a successful link CAS, or the chain keeps its length
 and the thread's remaining publication steps go down by one (or stay 0). -/
 theorem step_other {s : State} {x : Nat} {b : Thread} (hx : s.threads[x]? = some b) :
@@ -107,21 +121,21 @@ theorem step_other {s : State} {x : Nat} {b : Thread} (hx : s.threads[x]? = some
     right; exact ⟨rfl, _, hset _, Or.inl (by rw [remPub_finish]; rfl)⟩
   | popLoadTail h =>
     dsimp only
-    unfold State.popFail
-    (repeat' split) <;> right
-    · exact ⟨rfl, _, hset _, Or.inr ⟨rfl, rfl⟩⟩
-    · exact ⟨rfl, _, hset _, Or.inr ⟨rfl, remPub_finish b⟩⟩
-    · exact ⟨rfl, _, hset _, Or.inr ⟨rfl, rfl⟩⟩
+    split
+    · right
+      have := popFail_other hx (by rw [hpc]; rfl) (Acc.ldTail s.tail)
+      rw [hpc] at this; exact this
+    · right; exact ⟨rfl, _, hset _, Or.inr ⟨rfl, rfl⟩⟩
   | popCAS h n =>
     dsimp only
-    unfold State.popFail
     split
     · cases n with
       | some n => right; exact ⟨rfl, _, hset _, Or.inr ⟨rfl, rfl⟩⟩
       | none => right; exact ⟨rfl, _, hset _, Or.inr ⟨rfl, rfl⟩⟩
-    · split <;> right
-      · exact ⟨rfl, _, hset _, Or.inr ⟨rfl, rfl⟩⟩
-      · exact ⟨rfl, _, hset _, Or.inr ⟨rfl, remPub_finish b⟩⟩
+    · right
+      have := popFail_other hx (by rw [hpc]; rfl) (Acc.casHead h n false)
+      rw [hpc] at this; exact this
+  | popTick => right; exact ⟨rfl, _, hset _, Or.inr ⟨rfl, rfl⟩⟩
   | popRead n =>
     dsimp only
     split <;> (right; exact ⟨rfl, _, hset _, Or.inr ⟨rfl, rfl⟩⟩)
@@ -429,6 +443,22 @@ theorem pend_finish (th : Thread) : pend th.finish = th.prog.countP isPushCall' 
   | nil => simp [pend, inPushLoop]
   | cons c r => cases c <;> simp [pend, start, inPushLoop, isPushCall', List.countP_cons] <;> omega
 
+theorem popFail_unlinked {s : State} {x : Nat} {b : Thread} (hx : s.threads[x]? = some b)
+    (hl : inPushLoop b.pc = false) (acc : Acc) (hacc : isLink acc = false := by rfl) :
+    unlinked (s.popFail x b acc).1 + (isLink (s.popFail x b acc).2.acc).toNat = unlinked s := by
+  have key : ∀ b' : Thread, pend b' = pend b →
+      ((s.threads.set x b').map pend).sum = (s.threads.map pend).sum := by
+    intro b' hb; have := sum_set hx b'; omega
+  unfold State.popFail
+  split
+  · simp only [unlinked, State.setPc, hacc, Bool.toNat_false, Nat.add_zero]
+    exact key _ (by simp only [pend, hl]; rfl)
+  · split
+    · simp only [unlinked, hacc, Bool.toNat_false, Nat.add_zero]
+      exact key _ (by simp only [pend, hl]; rfl)
+    · simp only [unlinked, State.fin, hacc, Bool.toNat_false, Nat.add_zero]
+      exact key _ (by rw [pend_finish]; simp [pend, hl])
+
 /-- Every step: pending pushes go down by exactly the links performed. -/
 theorem unlinked_step (s : State) (x : Nat) :
     unlinked (step .addThenStore s x).1 + (isLink (step .addThenStore s x).2.acc).toNat
@@ -495,20 +525,19 @@ theorem unlinked_step (s : State) (x : Nat) :
       exact keyf (by rw [hpc]; rfl)
     | popLoadTail h =>
       dsimp only
-      unfold State.popFail
-      (repeat' split) <;> simp only [unlinked, State.setPc, State.fin, isLink, Bool.toNat_false, Nat.add_zero]
-      · exact key _ (by simp [pend, hpc, inPushLoop])
-      · exact keyf (by rw [hpc]; rfl)
-      · exact key _ (by simp [pend, hpc, inPushLoop])
+      split
+      · exact popFail_unlinked hx (by rw [hpc]; rfl) _
+      · simp only [unlinked, State.setPc, isLink, Bool.toNat_false, Nat.add_zero]
+        exact key _ (by simp [pend, hpc, inPushLoop])
     | popCAS h n =>
       dsimp only
-      unfold State.popFail
       split
       · cases n <;> simp only [unlinked, State.setPc, isLink, Bool.toNat_false, Nat.add_zero] <;>
           exact key _ (by simp [pend, hpc, inPushLoop])
-      · split <;> simp only [unlinked, State.setPc, State.fin, isLink, Bool.toNat_false, Nat.add_zero]
-        · exact key _ (by simp [pend, hpc, inPushLoop])
-        · exact keyf (by rw [hpc]; rfl)
+      · exact popFail_unlinked hx (by rw [hpc]; rfl) _
+    | popTick =>
+      simp only [unlinked, State.setPc, isLink, Bool.toNat_false, Nat.add_zero]
+      exact key _ (by simp [pend, hpc, inPushLoop])
 
 theorem unlinked_run (s : State) (σ : List Nat) :
     unlinked (run .addThenStore s σ).1 + linkCount (run .addThenStore s σ).2 = unlinked s := by
